@@ -420,6 +420,17 @@ class Roles:
                         if al is not None and al not in seen:
                             seen.add(al)
                             walk(origins(view, al), depth + 1)
+                elif o[0] == "agg" and depth < 40:
+                    for a in o[4]["rv"]["ops"]:
+                        al = operand_local(a)
+                        if al is not None and al not in seen:
+                            seen.add(al)
+                            walk(origins(view, al), depth + 1)
+                        if a["k"] in ("copy", "move") and [pr for pr in a["place"]["proj"] if pr["k"] == "field"]:
+                            walk([("field", tuple(pr["name"] for pr in a["place"]["proj"] if pr["k"] == "field"), tuple(origins(view, a["place"]["local"])))], depth + 1)
+                elif o[0] == "tuple" and depth < 40:
+                    for el in o[1]:
+                        walk(el, depth + 1)
         walk(origins(view, l))
         return out
 
